@@ -93,8 +93,8 @@ func (m *Method) BoundInnerCall(s *Scope, depth int) (result Object) {
 			break
 		}
 	}
-	for _, c := range m.Combinations {
-		if bc, _ := c.After.(BoundCaller); bc != nil {
+	for i := len(m.Combinations) - 1; 0 <= i; i-- {
+		if bc, _ := m.Combinations[i].After.(BoundCaller); bc != nil {
 			bc.BoundCall(s, depth)
 		}
 	}
